@@ -55,6 +55,7 @@ HOSTS = {
         "glue_reader": "rodbus/src/common/frame.rs",
     },
     "ffi": {
+        "pub_ffi": "rodbus/src/lib.rs",
         "ffi_support": "ffi/rodbus-ffi/src/lib.rs",
         "ffi_server": "ffi/rodbus-ffi/src/server.rs",
         "ffi_client": "ffi/rodbus-ffi/src/client.rs",
@@ -143,7 +144,8 @@ def weave(engine, tag, tier="quick"):
     attached = []
     for mod, host, hfile in attach:
         t = repo_text(host)
-        t += f'\n#[cfg(kani)]\n#[path = "{hfile}"]\npub(crate) mod verif_{mod};\n'
+        vis = "pub" if mod.startswith("pub_") else "pub(crate)"
+        t += f'\n#[cfg(kani)]\n#[path = "{hfile}"]\n{vis} mod verif_{mod};\n'
         _write_if_changed(os.path.join(src, host), t)
         attached.append((mod, host))
     _write_if_changed(
